@@ -398,17 +398,26 @@ func (c13Engine) Run(sci interface{}, ctx *RunCtx) *Finding {
 			}
 			// the failing node: a call node with that name whose literal arguments render as poisoned
 			var node *N
+			matches := 0
 			sc.Tree.Walk(func(n *N) {
-				if node == nil && n.K == "call" && n.S == poison[0].Name && constOnlyArgs(n) {
+				if n.K == "call" && n.S == poison[0].Name {
 					wr := NewWorld(false, nil, nil)
 					r := NewRef(BuildEnv(wr, sc.Env))
 					args, err := r.evalArgs(n.C)
 					if err == nil && renderArgs(args) == poison[0].Args {
-						node = n
+						matches++
+						if node == nil && constOnlyArgs(n) {
+							node = n
+						}
 					}
 				}
 			})
 			if node == nil {
+				continue
+			}
+			if matches > 1 {
+				// the poisoned call occurs at several sites: not a single fault
+				ctx.Count("skipped_multi_site_poison", 1)
 				continue
 			}
 			ctx.Count("site/constexpr", 1)
